@@ -143,6 +143,9 @@ def body(prop, args, seed, t0):
     if tier == "thorough" and build_ok and os.environ.get("VERIF_LEANCHECKER", "1") == "1":
         ok, out = common.leanchecker(prop)
         checker = {"ok": ok, "tail": out[-300:]}
+        if ok is None:
+            print(f"TIMEOUT property={prop} (leanchecker could not complete: {out}; no verdict)")
+            return 2
         if not ok:
             broken.append({"file": "leanchecker", "line": 0, "decl": "?", "message": out[-300:]})
     obligations = len(names)
